@@ -18,6 +18,14 @@ import (
 
 const verifRoot = "/verif"
 
+// evidenceRoot is /verif/evidence unless a dev-time run redirects it.
+func evidenceRoot() string {
+	if v := os.Getenv("VERIF_EVIDENCE_ROOT"); v != "" {
+		return v
+	}
+	return filepath.Join(verifRoot, "evidence")
+}
+
 // Job is one worker process.
 type Job struct {
 	Engine  string
@@ -175,8 +183,8 @@ func runCheck(id, tier string, rest []string) int {
 		"known_findings_seen": keys(printed),
 		"notes":               total.Notes,
 	}
-	os.MkdirAll(filepath.Join(verifRoot, "evidence"), 0755)
-	if err := ev.Write(filepath.Join(verifRoot, "evidence", id+".json")); err != nil {
+	os.MkdirAll(evidenceRoot(), 0755)
+	if err := ev.Write(filepath.Join(evidenceRoot(), id+".json")); err != nil {
 		fmt.Fprintln(os.Stderr, "evidence:", err)
 		return 2
 	}
@@ -278,14 +286,14 @@ func tailFile(path string, n int) string {
 }
 
 func keepLog(id, logf, journal, tag string) {
-	dir := filepath.Join(verifRoot, "evidence", "replays", id)
+	dir := filepath.Join(evidenceRoot(), "replays", id)
 	os.MkdirAll(dir, 0755)
 	b := []byte(tailFile(logf, 300) + "\n--- journal ---\n" + tailFile(journal, 300))
 	os.WriteFile(filepath.Join(dir, tag+".log"), b, 0644)
 }
 
 func writeReplay(id string, v vk.Violation) string {
-	dir := filepath.Join(verifRoot, "evidence", "replays", id)
+	dir := filepath.Join(evidenceRoot(), "replays", id)
 	os.MkdirAll(dir, 0755)
 	name := fmt.Sprintf("%016x.json", vk.Mix(0, v.Signature))
 	p := filepath.Join(dir, name)
